@@ -25,12 +25,15 @@ def run(prop, tier, repo=None, quiet=False, selftest=True):
         code = R.finish(meta['explanation'], meta['assumptions'], meta['technique'], meta.get('extra'))
         return code, R
     except (AnalysisError, Incomplete) as e:
-        print('ANALYSIS-ERROR: property=%s %s' % (prop, e))
+        if not quiet:
+            print('ANALYSIS-ERROR: property=%s %s' % (prop, e))
         _error_evidence(prop, tier, str(e), R)
         return 2, R
     except Exception as e:      # a traceback must never look like a violation
-        print('ANALYSIS-ERROR: property=%s internal error: %s: %s' % (prop, type(e).__name__, e))
-        traceback.print_exc()
+        if not quiet:
+            print('ANALYSIS-ERROR: property=%s internal error: %s: %s' % (prop, type(e).__name__, e))
+            traceback.print_exc()
+        R.internal_error = '%s: %s' % (type(e).__name__, e)
         _error_evidence(prop, tier, '%s: %s' % (type(e).__name__, e), R)
         return 2, R
 
